@@ -324,7 +324,7 @@ fn run_case(out: &mut Out, case: &Value) {
                 for (op, n) in prog {
                     let sdrop = cdropped.load(Ordering::SeqCst);
                     *curop.lock().unwrap() = op.clone();
-                    let mut rec = json!({"op": op, "n": n, "res": "ok", "k": 0, "sdrop": sdrop, "buf": -1});
+                    let mut rec = json!({"op": op, "n": n, "n1": n, "res": "ok", "k": 0, "sdrop": sdrop, "buf": -1});
                     match op.as_str() {
                         "write" => {
                             let data: Vec<u8> = (0..n).map(|i| payload_byte(&payload2, pos + i, pseed)).collect();
@@ -333,6 +333,27 @@ fn run_case(out: &mut Out, case: &Value) {
                                 Some(Ok(k)) => {
                                     rec["k"] = json!(k);
                                     shared.lock().unwrap().accepted.extend_from_slice(&data[..k]);
+                                    pos += k as u64;
+                                }
+                                Some(Err(_)) => rec["res"] = json!("err"),
+                                None => rec["res"] = json!("gone"),
+                            }
+                            inflight.store(0, Ordering::SeqCst);
+                        }
+                        "writev" => {
+                            // Write::write_vectored with three slices (the first a third, the second
+                            // empty, the third the rest); recorded as a write that accepted `k` bytes of
+                            // the concatenation
+                            let data: Vec<u8> = (0..n).map(|i| payload_byte(&payload2, pos + i, pseed)).collect();
+                            let cut = (n as usize) * 2 / 3;
+                            let bufs = [std::io::IoSlice::new(&data[..cut]), std::io::IoSlice::new(&[]), std::io::IoSlice::new(&data[cut..])];
+                            inflight.store(n as usize, Ordering::SeqCst);
+                            rec["op"] = json!("write");
+                            rec["n1"] = json!(if cut > 0 { cut } else { n as usize });
+                            match w.as_mut().map(|w| w.write_vectored(&bufs)) {
+                                Some(Ok(k)) => {
+                                    rec["k"] = json!(k);
+                                    shared.lock().unwrap().accepted.extend_from_slice(&data[..k.min(data.len())]);
                                     pos += k as u64;
                                 }
                                 Some(Err(_)) => rec["res"] = json!("err"),
